@@ -2,9 +2,9 @@
 
 HOOKS = {
     "guard": "cfg(any(kani, rateslib_verif))",
-    "enable": "Kani sets cfg(kani) itself; native replay builds may set RUSTFLAGS='--cfg rateslib_verif'. Verus units need no hooks (functions are extracted from source text).",
+    "enable": "Kani sets cfg(kani) itself for every crate it compiles, which switches on rust/dual/linalg/mod.rs::verif_hooks (public wrappers over the crate-private argabsmax / row_swap / el_swap); native builds may set RUSTFLAGS='--cfg rateslib_verif'. Verus units need no hooks (functions are extracted from source text). Cargo.toml declares the two cfg names under [lints.rust] so that the guard produces no warnings when off.",
     "baseline_off_cmd": "cd /repo && cargo test --workspace --no-fail-fast --offline",
-    "source_commits": [],
+    "source_commits": ["0b1e0ad"],
     "add_only": True,
 }
 
@@ -15,7 +15,7 @@ ENGINES = [
 NOTES = "Family: contract-based deductive verification of the real code. See DESIGN.md. Exit codes: 0 held, 1 VIOLATION, 2 undecided (tool problem / lost anchor; never a violation). Genuine defects repaired in /repo are listed in KNOWN_FINDINGS.txt as fixed:."
 
 NOT_APPLICABLE = {
-    "C09": "core claim needs a graph-theoretic inductive invariant over itertools/HashSet/ndarray code that neither Verus (single-file, no ndarray/itertools) nor Kani (hashing containers do not terminate under CBMC) reaches; see DESIGN.md §7 C09",
+    "C09": "core claim (every tree of quotes yields the complete matrix of path products) needs a graph-theoretic progress argument over a recursion built from sum_axis / zip / filter / max_by_key / itertools::combinations and a HashSet that neither Verus nor Kani reaches here; the rejection clauses (empty, count, settlement) are verified under C10's try_new contract and the bounded probe replay/src/probe_fx.rs exercises trees of 2..6 currencies; see DESIGN.md §7 C09",
     "C15": "needs an unbounded proof of the f64 linear solver plus Schoenberg-Whitney/Marsden spline theory; not expressible as contracts Z3 can discharge here; see DESIGN.md §7 C15",
     "C16": "implementation is serde derive expansions + serde_json/bincode; no rateslib function body to put a contract on; see DESIGN.md §7 C16",
 }
